@@ -221,6 +221,20 @@ func (c *Ctx) ruleSortedSearch(rule, dir string) {
 				if !ok {
 					return true
 				}
+				// S = slices.Insert(S, idx, x): a positional insert at the search index
+				if sel, isSel := call.Fun.(*ast.SelectorExpr); isSel && sel.Sel.Name == "Insert" && len(call.Args) >= 3 {
+					if a0, isID := call.Args[0].(*ast.Ident); isID && a0.Name == lhs.Name {
+						ord++
+						recv := ""
+						if fd.Recv != nil {
+							recv = recvTypeName(fd.Recv.List[0].Type) + "."
+						}
+						_, idxIsIdent := call.Args[1].(*ast.Ident)
+						c.ob(rule, fmt.Sprintf("%s.%s%s:append-to-searched-slice#%d", dir, recv, fd.Name.Name, ord), as.Pos(), idxIsIdent,
+							"slices.Insert at the position returned by the binary search keeps the slice sorted")
+						return true
+					}
+				}
 				fn, ok := call.Fun.(*ast.Ident)
 				if !ok || fn.Name != "append" || len(call.Args) == 0 {
 					return true
